@@ -11,6 +11,7 @@ SKEL = {
                      "    do { v--; } while (v > 0);\nout:\n    return v ? 1 : 0;\n}\n"),
         ("c-decl", "typedef unsigned long ul_t;\nextern const char *names[];\nint (*cb)(void *, int);\nint arr[2][3] = { { 1, 2, 3 }, { 4, 5, 6 } };\n"
                    "struct s { unsigned a : 3; struct s *next; } s0 = { .a = 1 };\nvoid proto(int, ...);\n"),
+        ("c-pp-braces", "int fpb(int a)\n{\n#if A\n    if (a) {\n        a = 1;\n    }\n#elif B\n    if (!a) {\n        a = 2;\n    }\n#else\n    {\n        a = 3;\n    }\n#endif\n    return a;\n}\n"),
         ("c-pp", "#ifndef H\n#define H\n#if defined(X) && X > 1\nint x1;\n#elif 0\nint x2;\n#else\nint x3;\n#endif\n"
                  "#define M(a) do { \\\n        a++; \\\n} while (0)\n#pragma once\n#endif /* H */\n"),
     ],
